@@ -4,7 +4,9 @@ import copy
 import importlib
 import inspect
 import io
+import base64
 import os
+import pickle
 import random
 import subprocess
 import tempfile
@@ -15,7 +17,7 @@ import types
 import z3
 
 from .values import SV, Loc, Unsupported, lift, simp, concrete_of, has_sym, kind_of
-from .state import Explorer, State, PathEnd, PyRaise
+from .state import Explorer, State, PathEnd, PyRaise, guarded_check
 from .interp import Interp, function_ast, qualname_of
 from . import api
 from .modular import eval_cfn, clauses
@@ -267,7 +269,7 @@ def _z3_try(ob, timeout_ms):
     for h in ob.hyps:
         s.add(h)
     s.add(z3.Not(ob.goal))
-    r = s.check()
+    r = guarded_check(s, timeout_ms)
     if r == z3.unsat:
         return 'unsat', None, s
     if r == z3.sat:
@@ -279,7 +281,11 @@ def _z3_try(ob, timeout_ms):
         except z3.Z3Exception:
             return 'bogus-sat', None, s
         return 'sat', m, s
-    return 'unknown:' + s.reason_unknown(), None, s
+    try:
+        why = s.reason_unknown()
+    except z3.Z3Exception:
+        why = 'interrupted'
+    return 'unknown:' + why, None, s
 
 
 def _race(text, budget_s):
@@ -323,66 +329,135 @@ def _race(text, budget_s):
             pass
 
 
-def discharge(ob, both=False):
-    """stage 1: z3 in-process, short budget.  A z3 'sat' is only believed when its model satisfies every
-    hypothesis and falsifies the goal (z3's sequence solver can return unsound models)."""
+def _solve(ob, both):
+    """full portfolio for one obligation; runs inside a forked child (so that a solver that ignores its
+    timeout can be killed).  Returns a picklable dict."""
     t0 = time.time()
     zver = 'z3-%s' % z3.get_version_string()
+    out = {'status': 'undecided', 'backend': zver, 'reason': ob.reason or '', 'model': None, 'nargs': None, 'second': None}
+    notes = []
     v, m, s = _z3_try(ob, Z3_QUICK_MS)
-    ob.backend = zver
     if v == 'unsat':
-        ob.status = 'discharged'
+        out['status'] = 'discharged'
     elif v == 'sat':
-        ob.status, ob.model = 'failed', m
+        out['status'] = 'failed'
     else:
-        ob.status = 'undecided'
-        ob.reason = ((ob.reason + ' ') if ob.reason else '') + 'z3:' + v
-    if ob.status == 'undecided' or both:
+        notes.append('z3:' + v)
+    if out['status'] == 'undecided' or (both and out['status'] == 'discharged'):
         text = "(set-logic ALL)\n" + s.to_smt2()
-        ob.smt2 = text.replace('seq.nth_i', 'seq.nth').replace('seq.nth_u', 'seq.nth')
-    ob.secs = time.time() - t0
-    return ob
+        text = text.replace('seq.nth_i', 'seq.nth').replace('seq.nth_u', 'seq.nth')
+        budget = max(CVC5_TIMEOUT_MS, Z3_TIMEOUT_MS) / 1000.0
+        who, ans, answers = _race(text, budget)
+        if out['status'] == 'discharged':
+            out['second'] = answers
+            if ans == 'sat':
+                out['status'] = 'undecided'
+                notes.append('solver disagreement: z3 unsat, %s sat' % who)
+        elif ans == 'unsat':
+            out['status'], out['backend'] = 'discharged', who
+        elif ans == 'sat':
+            out['status'], out['backend'] = 'failed', who
+            v2, m, _ = _z3_try(ob, Z3_TIMEOUT_MS)
+            if v2 == 'unsat':
+                out['status'] = 'undecided'
+                notes.append('solver disagreement: %s sat, z3 unsat' % who)
+            elif v2 != 'sat':
+                m = None
+        else:
+            notes.append('; '.join('%s:%s' % kv for kv in sorted(answers.items())))
+    if out['status'] == 'failed' and m is not None:
+        out['model'] = str(m)[:1500]
+        ctx = ob.ctx
+        if ctx is not None:
+            try:
+                nargs = {name: b.from_model(ctx['ip'], m, ctx['env'][name]) for name, b in ctx['sig'].items()}
+                out['nargs'] = pickle.dumps(nargs)
+            except Exception as ex:
+                out['nargs_error'] = 'model concretisation failed: %r' % ex
+    if notes:
+        out['reason'] = ((out['reason'] + ' ') if out['reason'] else '') + '; '.join(notes)
+    out['secs'] = time.time() - t0
+    return out
 
 
-def discharge_stage2(ob, both=False):
-    """stage 2 (runs in a thread): cvc5 / z3 CLI race on the SMT-LIB text"""
-    t0 = time.time()
-    budget = max(CVC5_TIMEOUT_MS, Z3_TIMEOUT_MS) / 1000.0
-    who, ans, answers = _race(ob.smt2, budget)
-    if ob.status == 'discharged':       # thorough mode: second opinion
-        ob.second = answers
-        if ans == 'sat':
-            ob.status = 'undecided'
-            ob.reason = 'solver disagreement: z3 unsat, %s sat' % who
-    elif ans == 'unsat':
-        ob.status, ob.backend = 'discharged', who
-    elif ans == 'sat':
-        ob.status, ob.backend = 'failed', who
-        ob.need_model = True
-    else:
-        ob.reason = (ob.reason or '') + '; ' + '; '.join('%s:%s' % kv for kv in sorted(answers.items()))
-    ob.secs += time.time() - t0
-    return ob
+def _fork_solve(ob, both):
+    r, w = os.pipe()
+    pid = os.fork()
+    if pid == 0:
+        code = 0
+        try:
+            os.close(r)
+            res = _solve(ob, both)
+            data = pickle.dumps(res)
+            with os.fdopen(w, 'wb') as fh:
+                fh.write(data)
+        except BaseException:
+            code = 1
+        finally:
+            os._exit(code)
+    os.close(w)
+    return pid, r
 
 
-def discharge_all(obs, both=False, threads=4):
-    from concurrent.futures import ThreadPoolExecutor
-    for ob in obs:
-        discharge(ob, both)
-    todo = [ob for ob in obs if ob.status == 'undecided' or (both and ob.status == 'discharged')]
-    if todo:
-        with ThreadPoolExecutor(max_workers=threads) as ex:
-            list(ex.map(lambda o: discharge_stage2(o, both), todo))
-    for ob in todo:
-        if getattr(ob, 'need_model', False):
-            v, m, _ = _z3_try(ob, Z3_TIMEOUT_MS)
-            if v == 'sat':
-                ob.model = m
-            elif v == 'unsat':
-                ob.status = 'undecided'
-                ob.reason = (ob.reason or '') + '; solver disagreement: %s sat, z3 unsat' % ob.backend
-        ob.smt2 = None
+def discharge_all(obs, both=False, threads=None):
+    """discharge obligations in forked children (<= threads at a time) with a hard wall-clock limit each"""
+    threads = threads or int(os.environ.get('PYVC_SOLVER_PROCS', '4'))
+    limit = (Z3_QUICK_MS + Z3_TIMEOUT_MS) / 1000.0 + max(CVC5_TIMEOUT_MS, Z3_TIMEOUT_MS) / 1000.0 + 15
+    pending = list(obs)
+    running = []
+    while pending or running:
+        while pending and len(running) < threads:
+            ob = pending.pop(0)
+            pid, fd = _fork_solve(ob, both)
+            os.set_blocking(fd, False)
+            running.append([ob, pid, fd, time.time(), b""])
+        still = []
+        for item in running:
+            ob, pid, fd, t0, buf = item
+            done = False
+            try:
+                while True:
+                    chunk = os.read(fd, 1 << 16)
+                    if not chunk:
+                        done = True
+                        break
+                    item[4] += chunk
+            except BlockingIOError:
+                pass
+            if done:
+                os.close(fd)
+                os.waitpid(pid, 0)
+                try:
+                    res = pickle.loads(item[4])
+                except Exception:
+                    res = {'status': 'undecided', 'backend': None, 'reason': 'solver child failed', 'secs': time.time() - t0}
+                _apply(ob, res)
+            elif time.time() - t0 > limit:
+                try:
+                    os.kill(pid, 9)
+                    os.system("pkill -9 -P %d >/dev/null 2>&1" % pid)
+                except OSError:
+                    pass
+                os.close(fd)
+                os.waitpid(pid, 0)
+                _apply(ob, {'status': 'undecided', 'backend': None, 'reason': 'solver exceeded hard limit of %ds (killed)' % limit, 'secs': time.time() - t0})
+            else:
+                still.append(item)
+        running = still
+        if running:
+            time.sleep(0.01)
     return obs
+
+
+def _apply(ob, res):
+    ob.status = res['status']
+    ob.backend = res.get('backend')
+    ob.reason = res.get('reason') or None
+    ob.secs = res.get('secs', 0.0)
+    ob.model = res.get('model')
+    ob.second = res.get('second')
+    ob.smt2 = res.get('nargs')            # pickled native inputs (reusing the slot)
+    ob.need_model = res.get('nargs_error')
 
 
 # ------------------------------------------------------------------ native evaluation of contract clauses
@@ -650,23 +725,19 @@ def crosscheck(c, f, n, seed):
 
 # ------------------------------------------------------------------ replay of a failed obligation
 def replay_failed(c, f, ob):
-    """concretise the model into native inputs and run the real function"""
-    ctx = ob.ctx
-    if ctx is None or ob.model is None:
-        return None
-    ip = ctx['ip']
-    saved = ip.st.heap
+    """run the real function on the native inputs concretised from the solver's model"""
+    if ob.smt2 is None:
+        return {'inputs': None, 'error': ob.need_model or 'no model available'}
     try:
-        nargs = {}
-        for name, b in ctx['sig'].items():
-            nargs[name] = b.from_model(ip, ob.model, ctx['env'][name])
+        nargs = pickle.loads(ob.smt2)
     except Exception as ex:
-        return {'inputs': None, 'error': 'model concretisation failed: %r' % ex}
+        return {'inputs': None, 'error': 'cannot unpickle inputs: %r' % ex}
+    shown = repr({k: _norm_native(v) for k, v in nargs.items()})[:3000]
     try:
         chk = native_check(c, f, nargs)
     except Exception as ex:
-        return {'inputs': repr({k: _norm_native(v) for k, v in nargs.items()}), 'error': 'native run failed: %r' % ex}
-    return {'inputs': repr({k: _norm_native(v) for k, v in nargs.items()}), 'native': chk}
+        return {'inputs': shown, 'error': 'native run failed: %r' % ex, 'pickle': base64.b64encode(ob.smt2).decode()}
+    return {'inputs': shown, 'native': chk, 'pickle': base64.b64encode(ob.smt2).decode()}
 
 
 # ------------------------------------------------------------------ canaries (in-memory mutants)
@@ -703,7 +774,7 @@ def verify_unit(c, mutate=None, do_cross=True, cross_n=40, seed=0, both=False, r
             if ob.status == 'failed':
                 d['goal'] = str(ob.goal)[:400]
                 if ob.model is not None:
-                    d['model'] = str(ob.model)[:1500]
+                    d['model'] = ob.model
                 if replay and mutate is None:
                     d['replay'] = replay_failed(c, f, ob)
                 elif replay:
@@ -719,12 +790,11 @@ def verify_unit(c, mutate=None, do_cross=True, cross_n=40, seed=0, both=False, r
 
 
 def replay_model_inputs(c, ob):
-    ctx = ob.ctx
-    if ctx is None or ob.model is None:
-        return None
+    if ob.smt2 is None:
+        return {'inputs': None, 'error': ob.need_model or 'no model available'}
     try:
-        nargs = {name: b.from_model(ctx['ip'], ob.model, ctx['env'][name]) for name, b in ctx['sig'].items()}
-        return {'inputs': repr({k: _norm_native(v) for k, v in nargs.items()})}
+        nargs = pickle.loads(ob.smt2)
+        return {'inputs': repr({k: _norm_native(v) for k, v in nargs.items()})[:3000]}
     except Exception as ex:
         return {'inputs': None, 'error': repr(ex)}
 
@@ -766,9 +836,9 @@ def verify_lemma(lm, both=False):
                  'secs': round(ob.secs, 4), 'reason': ob.reason, 'trace': []}
             if ob.status == 'failed':
                 d['goal'] = str(ob.goal)[:400]
-                d['model'] = str(ob.model)[:1500] if ob.model is not None else None
+                d['model'] = ob.model
                 try:
-                    nargs = {name: b.from_model(ob.ctx['ip'], ob.model, ob.ctx['env'][name]) for name, b in lm.sig.items()}
+                    nargs = pickle.loads(ob.smt2)
                     nat = lm.fn(**nargs)
                     d['replay'] = {'inputs': repr(nargs), 'native': {'observation': 'lemma statement evaluates to %r natively' % (nat,),
                                                                      'violated': [] if (all(nat) if isinstance(nat, tuple) else nat) else ['lemma false natively']}}
